@@ -168,6 +168,8 @@ func (ra *ResponseAdaptor) Handle(ctx *context.Context) string {
 	if len(ra.spec.Body) != 0 {
 		egresp.SetPayload([]byte(ra.spec.Body))
 		egresp.HTTPHeader().Del("Content-Encoding")
+		// the length the backend declared belongs to the replaced body.
+		egresp.HTTPHeader().Set(keyContentLength, strconv.Itoa(len(ra.spec.Body)))
 	}
 
 	if ra.spec.Compress != "" {
